@@ -18,9 +18,12 @@ def build(tier, seed):
     cases = [{"id": f"scene-{i}", "i": i} for i in range(6000 if thorough else 70)]
     for i in range(3 if thorough else 1):
         cases.append({"id": f"soak-{i}", "i": i, "soak": True})
+    for i in range(10 if thorough else 2):
+        cases.insert(0, {"id": f"crowd-{i}", "i": i, "crowd": True})       # (slow ones first)
 
     def evalfn(case):
-        return eval_case(case, random.Random(engine.subseed("C04", seed, case["id"])), thorough)
+        rng = random.Random(engine.subseed("C04", seed, case["id"]))
+        return eval_crowd(case, rng, thorough) if case.get("crowd") else eval_case(case, rng, thorough)
 
     def extra(results):
         return {"distinct_merge_orders": len({t for r in results for t in r.get("tags", []) if t.startswith("order:")}),
@@ -29,7 +32,7 @@ def build(tier, seed):
     return dict(cases=cases, evalfn=evalfn, level="exploration", min_nontrivial=30, extra=extra,
                 rule="scenes of 2..12 connections (soak: 60..200) x endpoint pattern {random, same client host/different ports, same client port to different servers, "
                      "same ports on different hosts, IPv4/IPv6 twins} x TLS and QUIC mixed (QUIC with zero-length and 1-byte CIDs; TLS <= 1.2 sessions resumed by later connections of the scene) x merge {round-robin, bursty, nested, "
-                     "random} x noise flows (HTTP on 443, TLS on an unselected port, non-QUIC UDP) x shuffled key log. Class = (n, pattern, merge, mix, noise); distinct "
+                     "random} (crowd: 1-3 connections with 1 030..4 200 other clients' opening packets between two of their packets) x noise flows (HTTP on 443, TLS on an unselected port, non-QUIC UDP) x shuffled key log. Class = (n, pattern, merge, mix, noise); distinct "
                      "merge orders are counted by hashing the connection-index sequence; non-trivial = at least two connections exported data and were compared",
                 assumptions=["timestamps are pairwise distinct per capture (the property's own proviso for QUIC datagrams)"])
 
@@ -121,4 +124,71 @@ def eval_case(case, rng, thorough):
     out["nontrivial"] = exporting >= 2
     if msgs:
         return dict(out, v="violated", msg=f"{n} connections, {pattern}, merge {merge_mode}: " + "; ".join(msgs[:3]), files=dict(files, **{"out_merged.pcapng": res.out}))
+    return dict(out, v="held")
+
+
+def eval_crowd(case, rng, thorough):
+    """A busy server: between two packets of the watched connections, more than a thousand other clients open connections to the same service (one ClientHello or
+    junk payload each, never continued).  However many they are, each watched connection is exported as if it were alone."""
+    nreal = rng.choice([1, 2, 3])
+    eps = gen.distinct_eps(rng, nreal, rng.choice(["random", "same-server", "same-client-host"]))
+    flows = []
+    for i, ep in enumerate(eps):
+        if rng.random() < 0.25:
+            flows.append(gen.random_quic_flow(rng, i, ep=ep, napp=4))
+        else:
+            flows.append(gen.random_tls_flow(rng, i, ep=ep, nmax=8, min_records=3, segkinds=("mss", "records", "whole")))
+    base = scene.merge(flows, rng, rng.choice(["random", "roundrobin", "concat"]))
+    n = rng.choice([1030, 1100, 1500, 2100] + ([4200] if thorough else []))
+    hello = next((f.conn.events[0].wire for f in flows if f.kind == "tls"), None)
+    srv = eps[0]
+    crowd = []
+    seen = {(e.cip, e.cport) for e in eps}
+    while len(crowd) < n:
+        cip, cport = (srv.cip[:-2] + rng.randbytes(2)) if rng.random() < 0.5 else rng.randbytes(len(srv.cip)), rng.randrange(1024, 61000)
+        if (cip, cport) in seen or cip == srv.sip:
+            continue
+        seen.add((cip, cport))
+        ep = tcpcap.Endpoints(rng.randbytes(6), srv.smac, cip, srv.sip, cport, 443 if srv.sport not in (443, 44330) or rng.random() < 0.8 else srv.sport, rng.randrange(1 << 32), rng.randrange(1 << 32))
+        if hello is not None and rng.random() < 0.7:
+            pl = hello[:11] + rng.randbytes(32) + hello[43:]          # somebody else's ClientHello (own random, not in the key log)
+        else:
+            pl = rng.choice([b"GET / HTTP/1.1\r\n\r\n", rng.randbytes(rng.randrange(1, 60)), b"\x16\x03\x01\x00\x05hello"])
+        sg = tcpcap.Seg("c", 1, 1, 0x18, pl, 0, 0)
+        crowd.append(scene.Item(tcpcap.frame(ep, sg), conn=1000 + len(crowd), dir="c", seg=sg, tag="crowd"))
+    # where the crowd arrives: behind a random packet of the scene (mostly mid-connection), in one or two waves
+    k = rng.randrange(1, len(base)) if len(base) > 1 else 1
+    if rng.random() < 0.3 and len(base) > 2:
+        k2 = rng.randrange(k, len(base))
+        h = rng.randrange(1, n)
+        items = base[:k] + crowd[:h] + base[k:k2] + crowd[h:] + base[k2:]
+    else:
+        items = base[:k] + crowd + base[k:]
+    scene.stamp(items, rng, rng.choice(["plain", "dense"]))
+    keys = scene.keylog_text(flows, rng)
+    res, files, argv = e2e.run_capture(scene.capture(items), keys, [], cpu=900)
+    out = {"cls": ["crowd", nreal, n // 1000, "+".join(sorted({f.kind for f in flows}))], "tags": ["pattern:crowd", f"order:{engine.subseed(tuple(it.conn for it in items)) & 0xFFFFFFFF:08x}"],
+           "sample": {"case": case["id"], "connections": [f.label + " " + f.ep.describe() for f in flows], "other_clients": n, "arrive_after_packet": k, "packets": len(items)}}
+    fail = e2e.run_failed(res)
+    if fail:
+        return dict(out, v="inconclusive" if fail.startswith("INCONCLUSIVE") else "violated", msg="merged run: " + fail, files=files)
+    an = outparse.Analysis(res.out)
+    msgs, exporting = [], 0
+    for kf, fl in enumerate(flows):
+        r2, f2, _ = e2e.run_capture(scene.capture([it for it in items if it.conn == kf]), keys, [])
+        fail = e2e.run_failed(r2)
+        if fail:
+            return dict(out, v="inconclusive", msg="solo run: " + fail)
+        solo_pk = [(p.ts, p.raw) for p in outparse.Analysis(r2.out).pkts]
+        merged_pk = gen.flow_packets(an, fl)
+        exporting += bool(merged_pk)
+        if merged_pk != solo_pk:
+            msgs.append(f"connection {kf} ({fl.label} {fl.ep.describe()}): {len(merged_pk)} packets exported with {n} other clients' packets in between, {len(solo_pk)} when alone")
+        m = gen.check_flow_exact(an, fl)
+        if m and not msgs:
+            msgs.append(m[0])
+    out["mon"] = {"connections_compared": len(flows), "merged_output_packets": len(an.pkts), "crowd_flows": n}
+    out["nontrivial"] = exporting >= 1
+    if msgs:
+        return dict(out, v="violated", msg=f"{nreal} connections and a crowd of {n}: " + "; ".join(msgs[:3]), files=dict(files, **{"out_merged.pcapng": res.out}))
     return dict(out, v="held")
